@@ -92,7 +92,15 @@ func (s *OpenAPI3Exporter) GenerateOpenAPI3(app *syslwrapper.App) (*openapi3.T, 
 	for k, v := range app.Types {
 		spec.Components.Schemas[k] = s.exportType(v)
 	}
-	for _, v := range app.Endpoints {
+	// in name order: two endpoints can have the same path and method ("GET /a" and "GET /a b"), and which of them
+	// is kept must not depend on map iteration order.
+	endpointNames := make([]string, 0, len(app.Endpoints))
+	for name := range app.Endpoints {
+		endpointNames = append(endpointNames, name)
+	}
+	sort.Strings(endpointNames)
+	for _, name := range endpointNames {
+		v := app.Endpoints[name]
 		var method, path string
 		epPath := strings.Split(v.Path, " ")
 		if len(epPath) > 1 {
